@@ -496,6 +496,9 @@ def run_dtypekw(ctx) -> RuleResult:
                         name = ctx.dotted(module, call.func) or ""
                         if not name.startswith(("numpy.", "numpoly.")):
                             continue
+                        if name.rsplit(".", 1)[-1] in ("zeros", "ones", "empty", "full", "eye", "arange", "zeros_like", "ones_like",
+                                                       "empty_like", "full_like", "ndarray", "dtype", "result_type"):
+                            continue  # the first argument is a shape / prototype, not combined values
                         if not (isinstance(dt, ast.Name) or U(dt).endswith(".dtype")):
                             continue  # a literal / computed dtype: not one operand's
                         dt_exp = strip_tags(step.expand(dt))
